@@ -290,6 +290,13 @@ func (fc *factCtx) defineInt(t intTerm) {
 	}
 	fc.done[t] = true
 	self := newLin().add(fc.p.varOf(t, t.v.Name()), 1)
+	// the range of a narrow unsigned type is a fact about every value of it (a byte indexes a [256]T table safely)
+	if b, ok := t.v.Type().Underlying().(*types.Basic); ok && b.Info()&types.IsUnsigned != 0 {
+		if w := intWidth(t.v.Type()); w > 0 && w <= 16 {
+			fc.le(leExpr(constLin(0), self))
+			fc.le(leExpr(self, constLin(int64(1)<<uint(w)-1)))
+		}
+	}
 	switch v := t.v.(type) {
 	case *ssa.BinOp:
 		if !isIntType(v.X.Type()) {
